@@ -10,11 +10,18 @@ for sid in sorted(os.listdir(os.path.join(V, "seeded"))):
         continue
     m = json.load(open(os.path.join(d, "meta.json")))
     props = ",".join(m.get("properties") or [m["property"]])
-    origin = "fix reversal" if sid.startswith("FIXREV") else "reviewer" if sid.startswith("R1_") else "builder" if "_rf" in sid else \
+    origin = "harmless rewrite" if sid.startswith("HARMLESS") else "fix reversal" if sid.startswith("FIXREV") else "reviewer" if sid.startswith("R1_") else "builder" if "_rf" in sid else \
         "round 3" if "_r3_" in sid else "round 2" if "_r2_" in sid else "round 1"
     first = "missed: " + fc[sid] if sid in fc else "caught"
+    if sid.startswith("HARMLESS"):
+        ob = m.get("observed_before_remedies", "all ok")
+        first = "quiet" if ob == "all ok" else "false alarm (%s), quiet since the remedies of 12.0" % ob
+    elif m.get("expect") == "quiet":
+        first = "must stay quiet"
     rows.append("| %s | %s | %s | %s |" % (sid, props, origin, first))
 print("| id | property | origin | first contact |")
 print("|----|----------|--------|---------------|")
 print("\n".join(rows))
-print("\n%d seeded changes, %d missed at first contact" % (len(rows), sum(1 for r in rows if "missed:" in r)))
+print("\n%d seeded changes (%d property-breaking, %d must-stay-quiet), %d missed at first contact, %d harmless rewrites alarmed at first contact" % (
+    len(rows), sum(1 for r in rows if "quiet" not in r), sum(1 for r in rows if "quiet" in r),
+    sum(1 for r in rows if "missed:" in r), sum(1 for r in rows if "false alarm" in r)))
